@@ -601,7 +601,7 @@ Definition hier_wfb (v : system_view) : bool :=
                        && nodupb (map vd_id (vp_dies p)) && nodupb (vp_nodes p)
                        && (zlen (vp_dieids p) =? Z.of_nat (List.length (vp_dies p)))
                        && all_disjoint (map vd_cpus (vp_dies p))
-                       && forallb (fun d => subset (vd_cpus d) (vp_cpus p) && nodupb (vd_nodes d)
+                       && forallb (fun d => subset (vd_cpus d) (vp_cpus p) && nodupb (vd_nodes d) && subset (vd_nodes d) (vp_nodes p)
                                             && forallb (fun nid => match node_cpus_of v nid with
                                                                    | Some cs => subset cs (vd_cpus d) | None => false end) (vd_nodes d))
                                   (vp_dies p)
@@ -614,7 +614,33 @@ Definition hier_wfb (v : system_view) : bool :=
   (* every online CPU belongs to a package *)
   && subset (sv_online v) (flat_map vp_cpus (sv_pkgs v))
   && subset (sv_online v) (cpu_ids v)
-  && negb (is_empty (sv_pkgs v)).
+  && negb (is_empty (sv_pkgs v))
+  && forallb (fun n => (0 <=? vn_memtype n) && (vn_memtype n <=? 2)) (sv_nodes v).
+
+(* ---- the shape of the tree, as a specification: which pools exist, with which parent ---- *)
+Definition multi_socket (v : system_view) : bool := 1 <? Z.of_nat (List.length (sv_pkgs v)).
+Definition socket_key (p : vpkg) : pkey := (KSocket, -1, vp_id p).
+Definition socket_depth (v : system_view) : Z := if multi_socket v then 1 else 0.
+
+Inductive origin (mf : bool) (v : system_view) (cs : cpusets) : pool -> Prop :=
+| OVirtual :            (* a virtual root iff there are several sockets *)
+    multi_socket v = true ->
+    origin mf v cs (mk_pool mf v cs (KVirtual, -1, -1) None 0 true (cpu_ids v))
+| OSocket p :           (* one pool per socket; the root when it is the only one *)
+    In p (sv_pkgs v) ->
+    origin mf v cs (mk_pool mf v cs (socket_key p) (if multi_socket v then Some (KVirtual, -1, -1) else None)
+                            (socket_depth v) (negb (multi_socket v)) (vp_cpus p))
+| ODie p d :            (* a die level iff the socket has several dies *)
+    In p (sv_pkgs v) -> (1 <? zlen (vp_dieids p)) = true -> In d (vp_dies p) ->
+    origin mf v cs (mk_pool mf v cs (KDie, vp_id p, vd_id d) (Some (socket_key p)) (socket_depth v + 1) false (vd_cpus d))
+| ONumaSocket p nid n : (* NUMA pools directly under a single-die socket iff it has several nodes; memory-less nodes folded *)
+    In p (sv_pkgs v) -> (1 <? zlen (vp_dieids p)) = false -> (1 <? zlen (vp_nodes p)) = true -> In nid (vp_nodes p) ->
+    find_node v nid = Some n -> node_memless n = false ->
+    origin mf v cs (mk_pool mf v cs (KNuma, -1, nid) (Some (socket_key p)) (socket_depth v + 1) false (vn_cpus n))
+| ONumaDie p d nid n :  (* NUMA pools under a die iff the die has several nodes *)
+    In p (sv_pkgs v) -> (1 <? zlen (vp_dieids p)) = true -> In d (vp_dies p) -> (1 <? zlen (vd_nodes d)) = true -> In nid (vd_nodes d) ->
+    find_node v nid = Some n -> node_memless n = false ->
+    origin mf v cs (mk_pool mf v cs (KNuma, -1, nid) (Some (KDie, vp_id p, vd_id d)) (socket_depth v + 2) false (vn_cpus n)).
 
 (* ---- correspondence checker, part (b) ---- *)
 Definition opkey_eqb (a b : option pkey) : bool :=
